@@ -2301,3 +2301,305 @@ func sharedParamsUsed(c *an.Ctx, rule string, exempt map[string]string, prefixes
 	}
 	return examined
 }
+
+// sharedCloneComplete is the completeness rule for clone methods: a method
+// named Clone* with receiver type T that builds a new T field by field must set
+// every field of T (a field left out is the zero value in every clone: a rule
+// text that is not logged, a limit that is lifted).  A whole-struct copy
+// (*dst = *src) sets all fields at once.  allowed names the fields a clone
+// leaves out on purpose ("<fn> <T>.<field>" -> reason).  Returns the number of
+// clone methods examined.
+func sharedCloneComplete(c *an.Ctx, rule string, allowed map[string]string, prefixes ...string) (examined int) {
+	for _, fn := range c.AllFns {
+		if fn.Blocks == nil || c.IsTestFile(fn.Pos()) || fn.Signature.Recv() == nil || fn.Parent() != nil || (fn.Synthetic != "" && fn.Origin() == nil) {
+			continue
+		}
+		if !strings.HasPrefix(fn.Name(), "Clone") && !strings.HasPrefix(fn.Name(), "clone") {
+			continue
+		}
+		k := an.FnKey(fn)
+		in := false
+		for _, p := range prefixes {
+			if strings.HasPrefix(k, p) {
+				in = true
+			}
+		}
+		if !in || strings.Contains(c.Pos(fn.Pos()), ".pb.go:") {
+			continue
+		}
+		recvT := an.TypeName(fn.Signature.Recv().Type())
+		if recvT == "" {
+			continue
+		}
+		an.Instrs(fn, func(in ssa.Instruction) {
+			al, ok := in.(*ssa.Alloc)
+			if !ok || an.TypeName(al.Type()) != recvT || al.Referrers() == nil {
+				return
+			}
+			st, ok := an.Deref(al.Type()).Underlying().(*types.Struct)
+			if !ok {
+				return
+			}
+			set := map[string]bool{}
+			whole := false
+			n := 0
+			for _, r := range *al.Referrers() {
+				switch x := r.(type) {
+				case *ssa.Store:
+					if x.Addr == ssa.Value(al) {
+						whole = true
+					}
+				case *ssa.FieldAddr:
+					if x.Referrers() == nil {
+						continue
+					}
+					for _, rr := range *x.Referrers() {
+						if s, ok := rr.(*ssa.Store); ok && s.Addr == ssa.Value(x) {
+							set[st.Field(x.Field).Name()] = true
+							n++
+						}
+					}
+				}
+			}
+			if n == 0 && !whole {
+				return
+			}
+			examined++
+			c.Analysed(k)
+			var missing []string
+			if !whole {
+				for i := 0; i < st.NumFields(); i++ {
+					f := st.Field(i).Name()
+					if !set[f] && allowed[k+" "+recvT+"."+f] == "" && f != "_" && !strings.HasPrefix(f, "noCopy") {
+						missing = append(missing, f)
+					}
+				}
+			}
+			c.Check(len(missing) == 0, rule, k+" copies every field of "+recvT, al.Pos(),
+				"the clone sets every field", "the clone leaves out "+strings.Join(missing, ", ")+": every clone has the zero value there")
+		})
+	}
+	return examined
+}
+
+// sharedNoLoopCarried is the per-element independence rule for conversion
+// loops: an object built inside a loop body for the current element must not
+// take a slice that is accumulated across iterations (a slice-typed φ of the
+// loop header that grows by append): every later object would then also carry
+// the contributions of all earlier elements.  Returns the number of loops with
+// an accumulator examined.
+func sharedNoLoopCarried(c *an.Ctx, rule string, prefixes ...string) (examined int) {
+	for _, fn := range c.AllFns {
+		if fn.Blocks == nil || c.IsTestFile(fn.Pos()) {
+			continue
+		}
+		k := an.FnKey(fn)
+		in := false
+		for _, p := range prefixes {
+			if strings.HasPrefix(k, p) {
+				in = true
+			}
+		}
+		if !in || strings.Contains(c.Pos(fn.Pos()), ".pb.go:") {
+			continue
+		}
+		for _, l := range naturalLoops(fn) {
+			// accumulators: slice-typed φ-nodes of the header fed by an append of themselves
+			var accs []*ssa.Phi
+			for _, ins := range l.header.Instrs {
+				phi, ok := ins.(*ssa.Phi)
+				if !ok {
+					break
+				}
+				if _, isSl := phi.Type().Underlying().(*types.Slice); !isSl {
+					continue
+				}
+				accs = append(accs, phi)
+			}
+			if len(accs) == 0 {
+				continue
+			}
+			examined++
+			derives := func(v ssa.Value, phi *ssa.Phi) bool {
+				seen := map[ssa.Value]bool{}
+				var walk func(v ssa.Value, d int) bool
+				walk = func(v ssa.Value, d int) bool {
+					if v == nil || seen[v] || d > 12 {
+						return false
+					}
+					seen[v] = true
+					if v == ssa.Value(phi) {
+						return true
+					}
+					switch x := v.(type) {
+					case *ssa.Phi:
+						for _, e := range x.Edges {
+							if walk(e, d+1) {
+								return true
+							}
+						}
+					case *ssa.Call:
+						if b, ok := x.Call.Value.(*ssa.Builtin); ok && b.Name() == "append" {
+							return walk(x.Call.Args[0], d+1)
+						}
+						if n := an.CalleeName(x); strings.HasPrefix(n, "slices.Clone") || strings.HasPrefix(n, "slices.Clip") || strings.HasPrefix(n, "slices.Concat") {
+							for _, a := range x.Call.Args {
+								if walk(a, d+1) {
+									return true
+								}
+							}
+						}
+					case *ssa.Slice:
+						return walk(x.X, d+1)
+					case *ssa.ChangeType:
+						return walk(x.X, d+1)
+					case *ssa.Convert:
+						return walk(x.X, d+1)
+					}
+					return false
+				}
+				return walk(v, 0)
+			}
+			for b := range l.blocks {
+				for _, ins := range b.Instrs {
+					st, ok := ins.(*ssa.Store)
+					if !ok {
+						continue
+					}
+					fa, ok := st.Addr.(*ssa.FieldAddr)
+					if !ok {
+						continue
+					}
+					al, ok := fa.X.(*ssa.Alloc)
+					if !ok || !l.blocks[al.Block()] {
+						continue
+					}
+					for _, phi := range accs {
+						if derives(st.Val, phi) {
+							_, f, _, _ := an.FieldOf(fa)
+							c.Analysed(k)
+							c.Bad(rule, fmt.Sprintf("%s loop over %s: field %s of the per-element %s", k, loopSubject(l), f, an.TypeName(al.Type())), st.Pos(),
+								"the object built for one element takes a slice accumulated over the previous iterations (%s): every later element also carries the earlier elements' entries", phi.Comment)
+						}
+					}
+				}
+			}
+		}
+	}
+	return examined
+}
+
+// sharedValidatedConversions is the rule for unchecked conversions to
+// validated identifier types: a plain conversion T(s.f) of a string field into
+// an identifier type T whose package has a validating constructor (newName,
+// e.g. filter.NewID for filter.ID) is only sound if the same field is handed to
+// that constructor somewhere in the package (the "validate" step the
+// conversion's comment relies on).  Returns the number of conversions examined.
+func sharedValidatedConversions(c *an.Ctx, rule, typeName, ctorSuffix string, prefixes ...string) (examined int) {
+	inPkgs := func(fn *ssa.Function) bool {
+		k := an.FnKey(fn)
+		for _, p := range prefixes {
+			if strings.HasPrefix(k, p) {
+				return true
+			}
+		}
+		return false
+	}
+	// the fields that reach the validating constructor
+	validated := map[string]bool{}
+	for _, fn := range c.AllFns {
+		if fn.Blocks == nil || c.IsTestFile(fn.Pos()) || !inPkgs(fn) {
+			continue
+		}
+		for _, call := range an.Calls(fn) {
+			if !strings.HasSuffix(an.CalleeName(call), ctorSuffix) || len(call.Common().Args) == 0 {
+				continue
+			}
+			if cv, ok := call.(*ssa.Call); ok {
+				// the constructor's result or error must be looked at
+				if cv.Referrers() == nil || len(*cv.Referrers()) == 0 {
+					continue
+				}
+			}
+			if t, f, ok := fieldSource(call.Common().Args[0], 0); ok {
+				validated[t+"."+f] = true
+			}
+		}
+	}
+	for _, fn := range c.AllFns {
+		if fn.Blocks == nil || c.IsTestFile(fn.Pos()) || !inPkgs(fn) {
+			continue
+		}
+		k := an.FnKey(fn)
+		an.Instrs(fn, func(in ssa.Instruction) {
+			var x ssa.Value
+			var to types.Type
+			switch cv := in.(type) {
+			case *ssa.ChangeType:
+				x, to = cv.X, cv.Type()
+			case *ssa.Convert:
+				x, to = cv.X, cv.Type()
+			default:
+				return
+			}
+			if an.TypeName(to) != typeName {
+				return
+			}
+			if b, ok := x.Type().Underlying().(*types.Basic); !ok || b.Kind() != types.String || an.TypeName(x.Type()) != "" {
+				return
+			}
+			t, f, ok := fieldSource(x, 0)
+			if !ok {
+				return
+			}
+			examined++
+			c.Analysed(k)
+			c.Check(validated[t+"."+f], rule, fmt.Sprintf("%s converts %s.%s to %s", k, t, f, typeName), in.Pos(),
+				"the field is checked by "+strings.TrimPrefix(ctorSuffix, ".")+" in the same package",
+				fmt.Sprintf("%s.%s is converted to %s without validation: nothing in the package hands it to %s (an identifier with a path separator or of any length is accepted)", t, f, typeName, strings.TrimPrefix(ctorSuffix, ".")))
+		})
+	}
+	return examined
+}
+
+// sharedInitialRefresh is the start-up rule for refreshable components: a
+// component that offers RefreshInitial (load whatever is cached, even if stale,
+// and only download what is missing) must be started through it; calling its
+// periodic Refresh directly from package cmd makes the start depend on the
+// network and on every upstream document being valid.  Returns the number of
+// RefreshInitial calls found.
+func sharedInitialRefresh(c *an.Ctx, rule string) (initials int) {
+	for _, fn := range c.AllFns {
+		if fn.Blocks == nil || c.IsTestFile(fn.Pos()) || !strings.HasPrefix(an.FnKey(fn), "cmd.") {
+			continue
+		}
+		k := an.FnKey(fn)
+		for _, call := range an.Calls(fn) {
+			callee := an.StaticCallee(call)
+			if callee == nil || callee.Signature.Recv() == nil {
+				continue
+			}
+			switch callee.Name() {
+			case "RefreshInitial":
+				initials++
+				c.Analysed(k)
+				c.Ok(rule, k+" starts "+an.TypeName(callee.Signature.Recv().Type())+" with RefreshInitial", call.Pos(), "initial load through RefreshInitial")
+			case "Refresh":
+				recv := callee.Signature.Recv().Type()
+				ms := c.Prog.SSA.MethodSets.MethodSet(recv)
+				hasInitial := false
+				for i := 0; i < ms.Len(); i++ {
+					if ms.At(i).Obj().Name() == "RefreshInitial" {
+						hasInitial = true
+					}
+				}
+				if hasInitial {
+					c.Analysed(k)
+					c.Bad(rule, k+" starts "+an.TypeName(recv)+" with RefreshInitial", call.Pos(),
+						"%s has RefreshInitial (use what is cached, even stale) but is started with its periodic Refresh: the first start after a restart needs the network and a fully valid index", an.TypeName(recv))
+				}
+			}
+		}
+	}
+	return initials
+}
